@@ -89,9 +89,23 @@ def r8_2(ctx, rc):
     prog = ctx.prog
     C = ctx.R.cache
     checks = _check_functions(ctx)
+    for nm, grp in (('_assert_doesnt_have_norm_cased_file', 'files'),
+                    ('_assert_doesnt_have_subbuild', 'subbuilds')):
+        q = C + '.' + nm
+        ctx.E.func(q)
+        key = '%s is a membership test of the %s map' % (nm, grp)
+        if grp in checks.get(q, set()):
+            rc.ok({'test': key}, key=key)
+        else:
+            rc.violation(
+                'presence-test | ' + q,
+                '%s does not raise on `key in <map>`: an entry that is '
+                'claimed but unfinished (value None) must count as taken, '
+                'otherwise a duplicate issued while the first call is still '
+                'running is accepted' % nm, ctx.prog.loc(
+                    ctx.prog.funcs[q], ctx.prog.funcs[q].node), key=key)
     if len(checks) < 2:
-        raise AnalysisError('raise-if-present tests of the claim maps not '
-                            'found')
+        return
     n = 0
     for name in CLAIMERS:
         M = ctx.E.func(C + '.' + name)
@@ -229,6 +243,22 @@ def r8_3(ctx, rc):
                          'the call can return without running the function '
                          'and without registering the reused record',
                          F.file, sg.describe_path(w), key=key)
+        else:
+            rc.ok({'order': key}, key=key)
+        # (d) finish_* only for a claim that succeeded: a rejected duplicate
+        # must not overwrite the owner's entry
+        w = Q.first_unguarded(sg, [sg.entry],
+                              lambda x: Q.is_done(x, claimq),
+                              lambda x: Q.is_call(x, finq))
+        key = '%s: %s only after a successful %s' % (F.qualname, finish,
+                                                     claim)
+        if w:
+            rc.violation('finish-unclaimed | ' + key,
+                         '%s can run although the atomic claim %s did not '
+                         'succeed (a rejected duplicate overwrites the '
+                         'record of the call that owns the key)' % (
+                             finish, claim), sg.nodes[w[-1]].where(),
+                         sg.describe_path(w), key=key)
         else:
             rc.ok({'order': key}, key=key)
         # (c) after a claim, every path to either exit passes finish_*
